@@ -86,9 +86,12 @@ func (vc *VC) box(st *State, v Term, from types.Type) Term {
 	if !vc.ufs[bname] {
 		vc.ufs[bname] = true
 		vc.emit(fmt.Sprintf("(declare-fun %s (%s) Int)", bname, v.Sort))
-		vc.emit(fmt.Sprintf("(assert (forall ((v %s)) (! (and (= (%s (%s v)) v) (= (dyntype (%s v)) %d) (< (%s v) 0)) :pattern ((%s v)))))", v.Sort, uname, bname, bname, tag, bname, bname))
 	}
-	return app(SInt, bname, v)
+	// ground instances of the boxing axioms for this value (no quantifier: keeps failing
+	// obligations decidable for the solvers)
+	b := app(SInt, bname, v)
+	st.assume(And(Eq(app(v.Sort, uname, b), v), Eq(app(SInt, "dyntype", b), IntLit(int64(tag))), app(SBool, "<", b, IntLit(0))))
+	return b
 }
 
 func isBasicInt(t types.Type) bool {
@@ -852,6 +855,16 @@ func (vc *VC) bindAnchors(fi *FuncInfo, c *FuncContract) {
 			txt = "recv:" + nodeText(vc.prog.Fset, x.X)
 		case *ast.SendStmt:
 			txt = "send:" + nodeText(vc.prog.Fset, x.Chan)
+		case *ast.AssignStmt:
+			// "def:x" anchors the statement that defines local x (x := ...)
+			if x.Tok != token.DEFINE {
+				return true
+			}
+			id, ok := x.Lhs[0].(*ast.Ident)
+			if !ok {
+				return true
+			}
+			txt = "def:" + id.Name
 		default:
 			return true
 		}
